@@ -101,7 +101,7 @@ fn shapes(tier: &str, seed: u64) -> Vec<Shape> {
         out.push(Shape { dims, cap_height: cap, ext_leaves: true });
     }
     let mut rng = SmallRng::seed_from_u64(seed.wrapping_mul(101).wrapping_add(9));
-    let n = if tier == "thorough" { 150 } else { 12 };
+    let n = if tier == "thorough" { 300 } else { 12 };
     for _ in 0..n {
         let nm = rng.random_range(1..=3);
         let mut dims = Vec::new();
